@@ -153,6 +153,7 @@ fn spec_t(kind: SKind, mode: SMode, target: Option<usize>, transpose: bool) -> S
         transpose: transpose && !matches!(kind, SKind::PfsMin | SKind::PfsMax),
         closure: Closure::None,
         mask: 0,
+        query: false,
     }
 }
 
@@ -320,6 +321,7 @@ fn take<F: Flavour>(w: &World<F>, t: &Take) -> Option<Slot<F>> {
 }
 
 fn run<F: Flavour>(sc: &LifeSc, stats: &mut Stats, dropper: &dyn Fn(Box<dyn FnOnce() + '_>, bool)) -> Option<Violation> {
+    crate::keys::set_style(crate::keys::style_from(sc.hash_seed));
     hashseam::set_seed(sc.hash_seed);
     let reg = Arc::new(Registry::default());
     install_registry(Some(reg.clone()));
